@@ -436,6 +436,7 @@ static void dumpFunction(Ctx &C, const Function &Fn, raw_ostream &O) {
       if (auto *S = dyn_cast<StoreInst>(&I)) { if (S->isAtomic()) O << ",\"atomic\":" << q(ordName(S->getOrdering())); if (S->isVolatile()) O << ",\"vol\":true"; }
       if (auto *R = dyn_cast<AtomicRMWInst>(&I)) O << ",\"rmw\":" << q(AtomicRMWInst::getOperationName(R->getOperation())) << ",\"atomic\":" << q(ordName(R->getOrdering()));
       if (auto *X = dyn_cast<AtomicCmpXchgInst>(&I)) O << ",\"atomic\":" << q(ordName(X->getSuccessOrdering()));
+      if (auto *FI = dyn_cast<FenceInst>(&I)) O << ",\"atomic\":" << q(ordName(FI->getOrdering()));
       if (auto *A = dyn_cast<AllocaInst>(&I)) {
         O << ",\"aty\":" << q(tystr(A->getAllocatedType())) << ",\"asz\":" << C.DL->getTypeAllocSize(A->getAllocatedType());
       }
